@@ -141,7 +141,15 @@ def h_reference(env, mapping, n, utd, simulate=True, canary=False):
         with warnings.catch_warnings():
             warnings.simplefilter("ignore")
             vec = tuple(int(round(float(x))) for x in get_vector(n, ne, mapping, up_then_down=utd, spin=sp))
+            # the returned vector is the caller's: editing it in place must not reach a later request with the same arguments
+            raw = get_vector(n, ne, mapping, up_then_down=utd, spin=sp)
+            try:
+                raw[:] = 1 - raw
+            except Exception:       # noqa  (an immutable result is fine too)
+                pass
+            again = tuple(int(round(float(x))) for x in get_vector(n, ne, mapping, up_then_down=utd, spin=sp))
             circ = get_reference_circuit(n, ne, mapping, up_then_down=utd, spin=sp)
+        env.check_same(again, vec, f"{mapping} n={n} N={ne} spin={sp} utd={utd}: get_vector gives the same vector after the caller edited an earlier result in place")
         env.check_same(len(vec), nq, f"{mapping}: reference vector has {nq} entries")
         env.check_same(circ.width, nq, f"{mapping}: reference circuit acts on {nq} qubits")
         # the circuit prepares the basis state |vec>
@@ -161,6 +169,17 @@ def h_reference(env, mapping, n, utd, simulate=True, canary=False):
             if scbk:
                 kw.update(n_electrons=ne, spin=eff_spin)
             nops[key] = [fermion_to_qubit_mapping(FermionOperator(((p, 1), (p, 0))), mapping, **kw).terms for p in range(n)]
+        if scbk and sp is None and not canary:
+            # spin left at its default on BOTH sides (state encoder above, operator encoder here): they must agree
+            with warnings.catch_warnings():
+                warnings.simplefilter("ignore")
+                dflt = [fermion_to_qubit_mapping(FermionOperator(((p, 1), (p, 0))), mapping, n_spinorbitals=n, up_then_down=utd, n_electrons=ne).terms
+                        for p in range(n)]
+            for p in range(n):
+                out = PB.pauli_apply(dflt[p], vec, exact=True)
+                env.check_true(PB.dict_exact_diff(out, {vec: f[p]} if f[p] else {}) is None,
+                               f"{mapping} n={n} N={ne} spin unspecified on both sides, utd={utd}: <n_{p}> = {f[p]} on the reference state",
+                               detail=f"vector {vec}, n_p|vec> = {out}")
         for p in range(n):
             out = PB.pauli_apply(nops[key][p], vec, exact=True)
             want = f[p]
